@@ -28,7 +28,10 @@ def latest():
     out = {}
     for l in open(os.path.join(ROOT, "_work", "results.jsonl")):
         d = json.loads(l)
-        out[(d["cmd"], d["prop"], str(d["n"]), d.get("check"), d.get("tier"))] = d
+        tier = d.get("tier")
+        if d["cmd"] == "check" and d.get("seed", "0") != "0":
+            tier = f"{tier} (VERIF_SEED={d['seed']})"
+        out[(d["cmd"], d["prop"], str(d["n"]), d.get("check"), tier)] = d
     return out
 
 
